@@ -269,7 +269,7 @@ def run(chk: Check, ctx: Any) -> None:
 
     def _registers(n: object) -> bool:
         return isinstance(n, ast.stmt) and not isinstance(n, (ast.If, ast.For, ast.While, ast.Try, ast.With)) and any(
-            isinstance(c, ast.Call) and isinstance(c.func, ast.Attribute) and c.func.attr == "source_map_add_opcode" for c in ast.walk(n))
+            isinstance(c, ast.Call) and isinstance(c.func, ast.Attribute) and c.func.attr in ("source_map_add_opcode", "source_map_add_jump_opcode") for c in ast.walk(n))
     has_reg = any(_registers(n) for n in jcfg.stmt_nodes())
     if not has_reg:
         chk.violation("C09-R3", "JumpWriteHandler:registers-always", jw, "the jump handler never registers the Jump op: `jump @label;` statements have no entry")
